@@ -1,4 +1,5 @@
 import GlyModel.Api.Convert
+import GlyProofs.Api.Lines
 /-
   C17 — Command-line contract. (Property theorems only.)
 -/
@@ -29,5 +30,13 @@ theorem C17_empty_writes_nothing (conv : Input → Outcome) : cliOutput conv [.f
 
 /-- Stripping removes surrounding white space only. -/
 theorem C17_strip_example : stripLine " \tGlc(a1-4)Glc \r\n".toList = "Glc(a1-4)Glc".toList := by decide
+
+/-- A file argument written one glycan per line is expanded to exactly those glycans (see `C09_file_lines_roundtrip`). -/
+theorem C17_file_argument (gs : List (List Char)) (h : ∀ g ∈ gs, NoNL g)
+    (h1 : ∀ g ∈ gs, ∀ x, g.head? = some x → isSpace x = false)
+    (h2 : ∀ g ∈ gs, ∀ x, g.getLast? = some x → isSpace x = false) :
+    (Arg.file (splitLines (gs.flatMap (· ++ ['\n'])))).expand = gs := by
+  have := readLines_roundtrip gs h h1 h2
+  simpa [Arg.expand, readLines] using this
 
 end Gly.Props.C17
